@@ -161,6 +161,12 @@ def g_mapping(rng):
         return Node('Enum(Byte, a=1, b=2, c=255)', lambda g: g.choice(['a', 'b', 'c', 1, 2, 255, 7, 0]), size=1, tags=['enum'])
     if r < 0.5:
         return Node('Enum(Int16ub, E)', lambda g: g.choice(['one', 'two', 'big', 1, 300, 5]), size=2, tags=['enum'])
+    if r < 0.62:
+        # multi-bit and overlapping masks, a zero-valued label
+        return Node('FlagsEnum(Byte, r=1, w=2, rw=3, hi=0xf0, none=0)',
+                    lambda g: g.choice([dict(r=True, w=False), dict(rw=True), dict(hi=True, r=True), 'r|hi', 'rw', 'none', '', 0, 1, 2, 3, 0x10, 0xf1, 255,
+                                        dict(r=False, w=False, rw=False, hi=False, none=False), dict(r=True, w=True, rw=True, hi=False, none=True)]),
+                    size=1, tags=['flags'])
     if r < 0.8:
         return Node('FlagsEnum(Byte, a=1, b=2, c=8)',
                     lambda g: g.choice([dict(a=True, b=False, c=True), dict(a=False), 'a|c', 'b', '', 3, 11, dict()]),
